@@ -382,17 +382,19 @@ func runCat(r *rand.Rand, dir string, n int) {
 		ln := r.Intn(40000)
 		args := []string{"cat", "-n", fmt.Sprint(1 + r.Intn(3)), "-s", store}
 		want := blob
+		valid := off <= len(blob)
 		switch i % 3 {
 		case 0:
 			args = append(args, "-o", fmt.Sprint(off), "-l", fmt.Sprint(ln))
 			want = slice(blob, off, ln)
+			valid = off+ln <= len(blob) // asking for more than there is may be refused (io.CopyN reports EOF)
 		case 1:
 			args = append(args, "-o", fmt.Sprint(off))
 			want = slice(blob, off, len(blob))
 		}
 		res := run(append(args, idxFile)...)
 		w.Emit(J{"ev": "cli", "fam": "cat", "cmd": "cat", "k": i, "off": off, "len": ln, "exit": res.exit, "hung": res.hung, "complete": bytes.Equal(res.stdout, want),
-			"valid_inputs": off <= len(blob), "out": res.last})
+			"valid_inputs": valid, "out": res.last})
 	}
 }
 
